@@ -31,6 +31,7 @@ def circuits(env, tier):
     yield "U3+h(0,1,1)", uni(3, 4, [(0, 1, 1)])
     yield "U3[late-herald]", uni(3, 3)
     yield "U4+h(0,0,0)+h(1,3,1)", uni(4, 5, [(0, 0, 0), (1, 3, 1)])
+    yield "U2+h(0,0,0)+h(1,1,1)", uni(2, 11, [(0, 0, 0), (1, 1, 1)])      # every mode heralded: no user-visible mode (herald success probability)
     c = lw.Circuit(3)
     c.bs(0, reflectivity=env.const(F(1, 3)))
     c.loss(1, env.const(F(1, 4)))
@@ -100,7 +101,7 @@ def check_simulator(env, label, circ, maxp):
         sim = emulator.Simulator(circ)
     m = circ.input_modes
     name = "lightworks/emulator/simulation/simulator.py:Simulator.simulate#xsym"
-    for k in range(0, maxp + 1):
+    for k in range(0, (maxp if m else 0) + 1):
         ins_ = fock.fock(m, k)
         res = sim.simulate([lw.State(s) for s in ins_])
         outs = [o.s for o in res.outputs]
@@ -118,6 +119,8 @@ def check_simulator(env, label, circ, maxp):
                 vals.append(((tuple(s), "norm"), tot - 1))
         env.check_all_zero(f"{name}.amplitude[{label};n={k}]", vals,
                            note="amplitude = perm(U_full[rows(out),cols(in)]) / sqrt(prod factorials), heralds inserted, vacuum on loss modes; unit vector when lossless")
+    if m == 0:
+        return
     # rejected inputs
     bad = [("wrong length", lambda: sim.simulate(lw.State([1] * (m + 1))), lw.emulator.ModeMismatchError if hasattr(lw.emulator, "ModeMismatchError") else Exception),
            ("negative", lambda: sim.simulate(lw.State([-1] + [0] * (m - 1))), ValueError),
@@ -238,10 +241,10 @@ def check_analyzer_quick(env, label, circ, maxp):
     hout = circ.heralds["output"]
     name_a = "lightworks/emulator/simulation/analyzer.py:Analyzer.analyze#xsym"
     name_q = "lightworks/emulator/simulation/quick_sampler.py:QuickSampler.probability_distribution#xsym"
-    for k in range(1, maxp + 1):
+    for k in (range(0, maxp + 1) if m else [0]):       # vacuum input included; a circuit without user-visible modes has exactly one input: the empty state
         ins_ = fock.fock(m, k)
         # post-selection shapes: none, rule "mode 0 holds <=1 photon", predicate
-        for ps_label, ps in (("none", None), ("rule", _rule(m)), ("fn", (lambda s: s[m - 1] == 0))):
+        for ps_label, ps in ((("none", None), ("rule", _rule(m)), ("fn", (lambda s: s[m - 1] == 0))) if m else (("none", None),)):
             an = emulator.Analyzer(circ)
             if ps is not None:
                 an.post_selection = ps
@@ -302,7 +305,7 @@ def check_analyzer_quick(env, label, circ, maxp):
         # quick sampler: conditioned on heralds, no loss of photons, renormalised
         if nl == 0 or True:
             for s in ins_:
-                for pnr, (psl, psq) in itertools.product((True, False), (("none", None), ("rule-last", _rule_last(m)), ("fn", (lambda st: st[0] <= 1)))):
+                for pnr, (psl, psq) in itertools.product((True, False), ((("none", None), ("rule-last", _rule_last(m)), ("fn", (lambda st: st[0] <= 1))) if m else (("none", None),))):
                     ref = spec_distribution(env, circ, U, s)
                     tot_in = sum(s) + sum(circ.heralds["input"].values())
                     cond = {}
@@ -380,7 +383,7 @@ def _run(mode, which, tier, label_filter=None):
 
 
 def circuit_labels(tier):
-    base = ["U2", "U3", "U3+h(1,0,2)", "U3+h(0,1,1)", "U3[late-herald]", "U4+h(0,0,0)+h(1,3,1)", "lossy3", "lossy2", "lossy3+h(1,2,0)", "anc(1)", "tiny"]
+    base = ["U2", "U3", "U3+h(1,0,2)", "U3+h(0,1,1)", "U3[late-herald]", "U4+h(0,0,0)+h(1,3,1)", "U2+h(0,0,0)+h(1,1,1)", "lossy3", "lossy2", "lossy3+h(1,2,0)", "anc(1)", "tiny"]
     return base + (["two-ancillas+loss", "U4"] if tier == "thorough" else [])
 
 
